@@ -31,7 +31,7 @@ Lemma build_sim body (l0 : lam) :
     (forall k m, In (k, m) (fn_marks body) -> In k (elif_block body) \/ exists e b, placed g k e b /\ l' b = m).
 Proof.
   intros Hlok H2 g.
-  destruct (S_block_all body b_start0 l0 false inv_start Hlok) as (l' & A & F & C & So & Co & Da & Db & Dc); [discriminate|].
+  destruct (S_block_all body b_start0 l0 false inv_start Hlok) as (l' & A & F & C & So & Co & Da & Db & Dc & Cn); [discriminate|].
   change (cur b_start0) with 2 in *. rewrite H2 in *. change (next b_start0) with 3 in *.
   change (flow_block true body) with (flow_block true body) in *. fold (fn_marks body) in Da, Db.
   set (s3 := process_block' b_start0 body) in *.
